@@ -2002,7 +2002,8 @@ Section Proofs.
     induction combs as [|c t (e & He)]; [exists None; now left|].
     cbn [PCR0Search.worker_events]. destruct (try_outcomes_ex cf loc c) as (o & Ho).
     destruct (is_event o) eqn:Ev.
-    - exists (Some (c, o)). apply in_or_app. left. apply in_map. apply filter_In. tauto.
+    - exists (Some (c, o)). apply in_or_app. left. apply in_map_iff. exists o. split; [reflexivity|].
+      apply filter_In. tauto.
     - exists e. apply in_or_app. right.
       assert (Et : existsb is_tnone (try_outcomes cf loc c) = true).
       { apply existsb_exists. exists o. split; [exact Ho|]. destruct o; try discriminate. reflexivity. }
